@@ -331,7 +331,7 @@ class StmtMixin:
 
   def _ghost_names(self, lc):
     out = []
-    for text in list(lc.ghost_init) + list(lc.ghost_end):
+    for text in list(lc.ghost_end):   # ghost_init-only names are loop constants
       out.append(text.split('=')[0].strip())
     return out
 
